@@ -78,6 +78,78 @@ def loop_source_full(body, head_call):
     return flow.render(flow.Origin(body).of_local(l))
 
 
+class CollectSite:
+    """One verification written in iterator form: `<chain>.iter().map(|m| { .. verify_backup_archive(m)? .. Ok(..) }).collect::<Result<Vec<_>, _>>()` —
+    the closure body plays the part of the loop body, the `collect` call that of the whole loop (what follows its success edge follows the loop's exit)."""
+    def __init__(self, collect, closure, call, src):
+        self.collect = collect   # the Iterator::collect call in the function body
+        self.closure = closure   # the map closure (a Body)
+        self.call = call         # the verify call inside the closure
+        self.src = src           # variable-level rendering of what the map runs over
+
+
+def collect_sites(prog, f, callee):
+    """Call sites of `callee` that sit in the closure of a `map(..)` whose items are collected into a `Result<Vec<_>, _>` in `f`.  Trusted (library semantics, as
+    `Iterator::next` is for a `for` loop): `Iterator::map` calls its closure once per element of the underlying iterator, in order, when the adaptor is
+    consumed; `collect` into `Result<V, E>` consumes it element by element, stops at the first `Err` item and returns that `Err`, and returns `Ok` only when
+    every item was `Ok`.  Only this exact shape qualifies: the collect's receiver IS the map adaptor (no filter / skip / take / rev in between: those show as
+    another call around or below and are left to fail the source test), the target type is `Result<Vec<..>, ..>` (a `Vec<Result<..>>` stops nothing), the
+    closure is a closure of `f`.  What the closure must do is checked by the caller."""
+    out = []
+    ov = flow.Origin(f, stop_at_vars=True)
+    for c in f.calls:
+        if c.callee != 'core::iter::traits::iterator::Iterator::collect' or not c.args or not c.dest or c.dest.get('p'):
+            continue
+        if not re.match(r'^core::result::Result<alloc::vec::Vec<', f.locals[c.dest['l']]):
+            continue
+        t = ov.of_operand(c.args[0])
+        if not (t[0] == 'call' and t[1] == 'core::iter::traits::iterator::Iterator::map' and len(t[2]) == 2):
+            continue
+        src_t, cl_t = t[2]
+        if not (cl_t[0] == 'agg' and isinstance(cl_t[1], str) and cl_t[1].startswith('closure:')):
+            continue
+        cl = prog.bodies.get(cl_t[1][len('closure:'):])
+        if cl is None or cl.kind != 'Closure' or cl.parent != f.id:
+            continue
+        for v in cl.calls_to(callee):
+            out.append(CollectSite(c, cl, v, flow.render(src_t)))
+    return out
+
+
+def closure_ok_payloads(cl):
+    """(origin trees of the payloads of the closure's `Ok(..)` returns, everything else it may return — other than a propagated `?` residual)"""
+    t = flow.Origin(cl).of_local(0)
+    oks, other = [], []
+    for a in (t[1] if t[0] == 'phi' else [t]):
+        if a[0] == 'agg' and isinstance(a[1], str) and a[1].endswith('Result::Ok') and len(a[2]) == 1:
+            oks.append(a[2][0])
+        elif a[0] == 'call' and isinstance(a[1], str) and a[1].endswith('from_residual'):
+            continue
+        else:
+            other.append(a)
+    return oks, other
+
+
+def through_named_copy(body, tree):
+    """`let parent_timestamp = parent_metadata.timestamp;` — a plain copy of a place kept under a name.  When the variable has that one definition and the
+    variable copied FROM is never written again (a single whole definition, no field assignment, no `&mut` borrow), the copy equals the place wherever both are
+    in scope: the variable-level origin of the definition.  Otherwise the tree itself."""
+    if tree[0] != 'var':
+        return tree
+    ds = body.defs.get(tree[1], [])
+    if len(ds) != 1 or ds[0][2] != 'assign' or ds[0][3]['rv']['k'] != 'use' or ds[0][3]['rv']['a'].get('k') not in ('cp', 'mv'):
+        return tree
+    src = ds[0][3]['rv']['a']['pl']['l']
+    if len(body.defs.get(src, [])) != 1 or '*' in ds[0][3]['rv']['a']['pl'].get('p', []):
+        return tree   # (copied through a reference: what it points to is not this body's to vouch for)
+    for blk in body.blocks:
+        for s in blk['s']:
+            rv = s.get('rv')
+            if rv and rv['k'] in ('ref', 'rawptr') and rv['pl']['l'] == src and (rv.get('mut') or rv['k'] == 'rawptr'):
+                return tree
+    return flow.Origin(body, stop_at_vars=True).of_local(tree[1])
+
+
 def file_opens(prog, body, tree, depth=2):
     """[(body, origin tree of the call)] — the file-opening calls from which the value `tree` (a writer) obtains its file: through wrappers (BufWriter::new(..)), `?`,
     alternatives, and local helper functions that return the File; the arguments of an opening call or of such a helper (the path) are not searched"""
@@ -160,7 +232,8 @@ def cap_of(prog, closure, local, default):
 
 def capture_source(prog, closure, idx, depth=4):
     """Rendering, in the body that owns the variable, of what capture `idx` of `closure` captures (followed outwards through enclosing closures that
-    merely pass their own capture on); '' when it cannot be resolved."""
+    merely pass their own capture on — also across a helper fn inlined into such a closure (kvstatic/inline.py): the helper's parameter carries no name, so
+    the inner closure's capture of it renders as the enclosing closure's own capture); '' when it cannot be resolved."""
     parent, trees = _captures(prog, closure)
     if parent is None or idx is None or idx >= len(trees):
         return ''
@@ -168,7 +241,8 @@ def capture_source(prog, closure, idx, depth=4):
     j = _cap_index(t)
     if j is not None and depth > 0:
         return capture_source(prog, parent, j, depth - 1)
-    return flow.render(t)
+    # (a value read once into a named temporary before the closure is built — `let since = parent.timestamp;` — is that value: through_named_copy)
+    return flow.render(through_named_copy(parent, t))
 
 
 def bind_roles(prog):
@@ -183,7 +257,9 @@ def bind_roles(prog):
     uuid = r'(?:\w+::)*Uuid'
     for f in (rb, pit):
         # the (id, archive path) pairs recorded by the verification and consumed by the extraction
-        util.bind_role(f, 'verified_archives', type_rx=r'Vec<\(%s, (?:\w+::)*PathBuf\)>$' % uuid, used_as=(r'Vec(<.*>)?::push$', 0))
+        if util.bind_role(f, 'verified_archives', type_rx=r'Vec<\(%s, (?:\w+::)*PathBuf\)>$' % uuid, used_as=(r'Vec(<.*>)?::push$', 0)) is None:
+            # .. or collected from an iterator over the chain (the iterator form of the verification loop, collect_sites)
+            util.bind_role(f, 'verified_archives', type_rx=r'Vec<\(%s, (?:\w+::)*PathBuf\)>$' % uuid, origin_rx=r'^Iterator::collect\(Iterator::map\(', full=True)
     # restore by id: what is restored is either the requested backup alone or the ancestry chain built in another variable
     util.bind_role(rb, 'restore_chain', type_rx=r'Vec<%s>$' % meta, origin_rx=r'^phi\(.* \| var:\w+\)$')
     # .. and the walk follows the Some payload of the current element's parent link
@@ -227,10 +303,12 @@ def run(ctx, prog):
         f = ctx.body('C12.R1', fn)
         ov = flow.Origin(f, stop_at_vars=True)
         ver = f.calls_to('RestoreManager::verify_backup_archive')
+        # .. and the verify sites of the iterator form `chain.iter().map(|m| { .. verify(m)? .. Ok(..) }).collect::<Result<Vec<_>>>()?` (collect_sites)
+        cver = collect_sites(prog, f, 'RestoreManager::verify_backup_archive')
         clr = f.calls_to('RestoreManager::clear_data_directory')
         ext = f.calls_to('RestoreManager::extract_backup_archive')
-        if not ver or not clr or not ext:
-            ctx.missing('C12.R1', '%s: verify/clear/extract calls (%d/%d/%d)' % (fn, len(ver), len(clr), len(ext)))
+        if not (ver or cver) or not clr or not ext:
+            ctx.missing('C12.R1', '%s: verify/clear/extract calls (%d/%d/%d)' % (fn, len(ver) + len(cver), len(clr), len(ext)))
             continue
         # each verify site: in a loop ⇒ every iteration verifies and the clear is behind the loop exit; straight-line ⇒ its
         # success edge dominates the clear
@@ -255,14 +333,49 @@ def run(ctx, prog):
                          'clear_data_directory %s' % ('reachable without the loop exit' if any(c.bb in r0 for c in clr) else 'dominated by the loop exit'))
                 src = util.loop_source(f, h)
                 ctx.inst('C12.R1', f.short, 'verify #%d: the loop covers the chain' % k, iterated(src) in ('var:restore_chain', 'var:incrementals'), 'verification loop iterates %s' % src)
+        # the iterator form: the closure body is the loop body (its Ok return = "next iteration", its Err return = leaving the function through the `?` on the
+        # collected Result), the success edge of that `?` is the loop's exit
+        for k, cs in enumerate(cver, len(ver)):
+            cl, v = cs.closure, cs.call
+            use = util.result_use(cl, v)
+            v_succ = flow.success_edges(cl, v)
+            r = cl.reach([0], avoid_blocks=flow.err_blocks(cl), avoid_edges=v_succ)
+            oks, other = closure_ok_payloads(cl)
+            elem = flow.Origin(cl).of_operand(v.args[1]) if len(v.args) == 2 else ('?',)
+            this_elem = elem[0] == 'arg' and elem[1] == 2   # (closure locals: _1 environment, _2 the element handed in by map)
+            ctx.inst('C12.R1', f.short, 'verify #%d: every iteration verifies its archive' % k,
+                     not any(x in r for x in cl.return_blocks()) and use == 'propagated' and bool(oks) and not other and this_elem,
+                     'map closure %s: an Ok item without a successful verify: %s; verify result: %s; verifies the element it is handed: %s; returns other than Ok(..) / `?`: %d' % (
+                         cl.short.split('::')[-1], any(x in r for x in cl.return_blocks()), use, this_elem, len(other)))
+            c_use = util.result_use(f, cs.collect)
+            c_ok = flow.success_edges(f, cs.collect) if c_use == 'propagated' else []
+            r0 = f.reach([0], avoid_edges=c_ok)
+            ctx.inst('C12.R1', f.short, 'verify #%d: clear only after the verification loop finished' % k, all(c.bb not in r0 for c in clr) and bool(c_ok),
+                     'collected Result %s; clear_data_directory %s' % (c_use, 'reachable without its Ok edge' if any(c.bb in r0 for c in clr) or not c_ok else 'dominated by its Ok edge'))
+            ctx.inst('C12.R1', f.short, 'verify #%d: the loop covers the chain' % k, iterated(cs.src) in ('var:restore_chain', 'var:incrementals'), 'map(..).collect() runs over %s' % cs.src)
         # what is extracted is what was verified
         eh = loop_head_for(f, ext[0].bb)
         esrc = util.loop_source(f, eh) if eh is not None else '?'
         ctx.inst('C12.R1', f.short, 'only verified archives are extracted', iterated(esrc) == 'var:verified_archives', 'extraction loop iterates %s' % esrc)
         push = [c for c in f.calls if c.callee and c.callee.endswith('::push') and c.args and flow.render(ov.of_operand(c.args[0])) == 'var:verified_archives']
         pv = [flow.render(flow.Origin(f).of_operand(c.args[1])) for c in push]
-        ctx.inst('C12.R1', f.short, 'verified_archives records exactly the verified paths', bool(push) and len(push) == len(ver) and all('verify_backup_archive' in x for x in pv),
-                 '%d pushes for %d verify sites' % (len(push), len(ver)))
+        rec_ok, rec_d = bool(push) and len(push) == len(ver) and all('verify_backup_archive' in x for x in pv), '%d pushes for %d verify sites' % (len(push), len(ver))
+        if cver:
+            # iterator form: verified_archives IS the collected Vec (its one definition is the Ok payload of the collect), and every item the closure yields is
+            # a pair whose path is what verify_backup_archive returned for the element; direct sites (if any) push as before
+            va = f.var_local('verified_archives')
+            t_ = flow.Origin(f).of_local(va[0]) if len(va) == 1 else ('?',)
+            while t_[0] in ('field', 'downcast'):
+                t_ = t_[1]
+            is_collected = len(set(id(cs.collect) for cs in cver)) == 1 and t_[0] == 'call' and t_[3] is cver[0].collect
+            items = []
+            for cl in set(cs.closure for cs in cver):
+                oks, other = closure_ok_payloads(cl)
+                items += [flow.render(x) for x in oks] + ['?' for _ in other]
+            pair = r'^tuple\{arg:\w+→BackupMetadata\.id, RestoreManager::verify_backup_archive\(cap:self, arg:\w+\)@Continue→Continue\.0\}$'
+            rec_ok = (rec_ok if ver else not push) and is_collected and bool(items) and all(re.match(pair, x) for x in items)
+            rec_d += '; verified_archives is the collected Vec: %s; items: %s' % (is_collected, [x[:90] for x in items[:2]])
+        ctx.inst('C12.R1', f.short, 'verified_archives records exactly the verified paths', rec_ok, rec_d)
         c_succ = flow.success_edges(f, clr[0])
         dry = []
         for i, blk in enumerate(f.blocks):
@@ -615,7 +728,13 @@ def run(ctx, prog):
         # "modified" = mtime >= parent timestamp (same-second writes included): the innermost test, and the closure(s) around it — calling one of those IS
         # asking "modified since the parent?", whatever the variable that holds the closure is called
         mods = [b_ for b_ in fam if b_.kind == 'Closure' and b_.locals[0] == 'bool' and b_ is not fc and 'Duration::as_secs(' in flow.render(flow.Origin(b_).of_local(0))]
-        msp = set(b_.id for b_ in fam if b_.kind == 'Closure' and len(mods) == 1 and (b_ is mods[0] or mods[0].id.startswith(b_.id + '::')))
+        # (the closures around it: by id prefix, and by the chain of enclosing bodies — the closures of a helper fn that was inlined into the closure keep the
+        # helper's path as their id, with the closure they now sit in as parent)
+        anc, b_ = set(), (mods[0] if len(mods) == 1 else None)
+        while b_ is not None and b_.kind == 'Closure' and b_.id not in anc:
+            anc.add(b_.id)
+            b_ = prog.bodies.get(b_.parent) if b_.parent else None
+        msp = set(b_.id for b_ in fam if b_.kind == 'Closure' and len(mods) == 1 and (b_ is mods[0] or mods[0].id.startswith(b_.id + '::') or b_.id in anc))
         fvv = flow.Origin(fc, stop_at_vars=True)
         t_blocks = set()
         f_blocks = set()
@@ -676,7 +795,8 @@ def run(ctx, prog):
         by_name = bool(re.match(r'^\(Duration::as_secs\(arg:\w+\) Ge cap:parent_metadata\b[^)]*\)$', r_))
         csrc = capture_source(prog, mods[0], _cap_index(t_[3])) if t_ and t_[0] == 'bin' and re.match(r'^\(Duration::as_secs\(arg:\w+\) Ge cap:\w+\)$', r_) else ''
         by_role = roles.get(('inc', 'parent_metadata')) is not None and csrc == 'var:parent_metadata→BackupMetadata.timestamp'
-        ctx.inst('C12.R6', inc.short, 'modified_since_parent compares mtime ≥ parent timestamp', by_name or by_role, 'innermost test: %s' % r_[:120])
+        ctx.inst('C12.R6', inc.short, 'modified_since_parent compares mtime ≥ parent timestamp', by_name or by_role,
+                 'innermost test: %s%s' % (r_[:120], ('; the captured value is %s' % csrc[:100]) if csrc else ''))
     # ------------------------------------------------------------------ R7 which backups a point-in-time restore applies
     ctx.rule('C12.R7', 'point-in-time chain selection: the backup list is sorted newest first; the base is the first Full with timestamp ≤ target in that order; '
                        'each hop takes the FIRST element of that list (newest) whose parent is the current backup, whose timestamp is ≤ target and which is '
@@ -684,20 +804,27 @@ def run(ctx, prog):
                        'when two incrementals share a parent and restores a stale collection without any error)')
     lbd = ctx.body('C12.R7', 'backup::list_backups_from_dir')
     if lbd is not None:
-        srt = [c for c in lbd.calls if c.callee and flow.short(c.callee) == 'slice::sort_by']
+        # the stable sorts: by a comparator, or by a key (`sort_by_key(f)` is `sort_by(|a, b| f(a).cmp(&f(b)))`, the same stable merge sort)
+        srt = [c for c in lbd.calls if c.callee and flow.short(c.callee) in ('slice::sort_by', 'slice::sort_by_key')]
         cmpb = [prog.bodies.get(g) for c in srt for g in c.gc]
         t_ = flow.Origin(cmpb[0]).of_local(0) if cmpb and cmpb[0] is not None else None
         r_ = flow.render(t_) if t_ else ''
+        by_key = bool(srt) and flow.short(srt[0].callee) == 'slice::sort_by_key'
         rets = [x for x in lbd.return_blocks() if x in lbd.live_blocks()]
         okret = [x for x in rets if x not in flow.err_blocks(lbd)]
         # descending = the SECOND parameter's timestamp compared with the first's (closure locals: _1 environment, _2 first, _3 second parameter), whatever the
         # two parameters of the comparator are called
-        desc = r_ == 'impls::cmp(arg:b→BackupMetadata.timestamp, arg:a→BackupMetadata.timestamp)' or (
+        desc = not by_key and (r_ == 'impls::cmp(arg:b→BackupMetadata.timestamp, arg:a→BackupMetadata.timestamp)' or (
             bool(re.match(r'^impls::cmp\(arg:\w+→BackupMetadata\.timestamp, arg:\w+→BackupMetadata\.timestamp\)$', r_)) and t_[0] == 'call' and
-            [a_[1][1] if a_[0] == 'field' and a_[1][0] == 'arg' else None for a_ in t_[2]] == [3, 2])
+            [a_[1][1] if a_[0] == 'field' and a_[1][0] == 'arg' else None for a_ in t_[2]] == [3, 2]))
+        # descending by key: the key of an element (closure locals: _1 environment, _2 the element) is core::cmp::Reverse of ITS timestamp — Reverse(x).cmp(&Reverse(y))
+        # is y.cmp(&x), the comparator above; the key type is the std wrapper (return type of the closure), not something of the same name
+        if by_key and t_ is not None and cmpb[0].locals[0] == 'core::cmp::Reverse<u64>':
+            desc = t_[0] == 'agg' and isinstance(t_[1], str) and t_[1].endswith('cmp::Reverse::Reverse') and len(t_[2]) == 1 and t_[2][0][0] == 'field' and \
+                t_[2][0][1][0] == 'arg' and t_[2][0][1][1] == 2 and bool(re.match(r'^cmp::Reverse::Reverse\{arg:\w+→BackupMetadata\.timestamp\}$', r_))
         ctx.inst('C12.R7', lbd.short, 'sorted by timestamp, newest first, before it is returned', len(srt) == 1 and desc and
                  bool(rets) and not any(x in lbd.reach([0], avoid_blocks=[srt[0].bb] + sorted(flow.err_blocks(lbd))) for x in rets),
-                 'comparator: %s' % r_)
+                 '%s: %s' % ('sort key' if by_key else 'comparator', r_))
     for nm in ('RestoreManager::list_backups', 'BackupManager::list_backups'):
         lb_ = ctx.body('C12.R7', nm)
         if lb_ is not None:
@@ -819,9 +946,15 @@ def run(ctx, prog):
         ver = rb.calls_to('RestoreManager::verify_backup_archive')
         heads = [h for h in rb.calls if h.callee and h.is_('re:Iterator>::next$') and ver and rb.dominates(h.bb, ver[0].bb) and h.bb in rb.reach([ver[0].bb])]
         src = util.loop_source(rb, heads[0]) if heads else '?'
+        ver_at = [ver[0].bb] if ver else []
+        if not ver:
+            # the verification loop in iterator form (R1, collect_sites): it runs where its `collect` is called, over what its `map` adapts
+            cver8 = collect_sites(prog, rb, 'RestoreManager::verify_backup_archive')
+            if cver8:
+                ver_at, src = [cver8[0].collect.bb], cver8[0].src
         rc = rb.var_local('restore_chain')
         rco = flow.render(ov8.of_local(rc[0])) if rc else '?'
-        ok_rev = bool(rev) and bool(ver) and all(r_.bb not in rb.reach([ver[0].bb]) for r_ in rev) and 'restore_chain' in src and \
+        ok_rev = bool(rev) and bool(ver_at) and all(r_.bb not in rb.reach(ver_at) for r_ in rev) and 'restore_chain' in src and \
             (chv in rco or (chv.startswith('var:') and util.var_chain_reaches(rb, 'restore_chain', chv[4:])))   # directly, or through named bindings (`?` on a helper's result)
         ctx.inst('C12.R8', rb.short, 'the chain is reversed (Full first) and is what the verification loop runs over', ok_rev,
                  'reverse(%s): %d; verification loop over %s; restore_chain = %s' % (chv, len(rev), src[:60], rco[:90]))
